@@ -519,3 +519,56 @@ func (n *Node) AnyField(pred func(n *Node, f *FieldInfo) bool) bool {
 	}
 	return false
 }
+
+// NormalizeDoc is Normalize for a tree that stands for a document: leaf-lists marked EmptyLL are
+// kept (the document mentions them as []), and so are the containers that hold nothing else.
+func (n *Node) NormalizeDoc() *Node {
+	if n == nil {
+		return nil
+	}
+	for k, l := range n.LL {
+		if len(l) == 0 {
+			delete(n.LL, k)
+		}
+	}
+	for k := range n.EmptyLL {
+		if len(n.LL[k]) > 0 {
+			delete(n.EmptyLL, k)
+		}
+	}
+	for k, l := range n.List {
+		if len(l) == 0 {
+			delete(n.List, k)
+		}
+		for _, e := range l {
+			e.N.NormalizeDoc()
+		}
+	}
+	for k, l := range n.UList {
+		if len(l) == 0 {
+			delete(n.UList, k)
+		}
+		for _, e := range l {
+			e.NormalizeDoc()
+		}
+	}
+	for k, c := range n.Cont {
+		c.NormalizeDoc()
+		if !n.SI.ByName[k].Presence && c.IsEmpty(true) && !c.mentionsEmptyLL() {
+			delete(n.Cont, k)
+		}
+	}
+	return n
+}
+
+func (n *Node) mentionsEmptyLL() bool {
+	if len(n.EmptyLL) > 0 {
+		return true
+	}
+	for _, c := range n.Cont {
+		if c.mentionsEmptyLL() {
+			return true
+		}
+	}
+	return false
+}
